@@ -20,6 +20,9 @@ func init() {
 			"no-password-on-argv: taint analysis shows no credential reaches an exec.Command argument. NOT decided: that crypto/ssh and the ssh binary honour these settings (trusted), behaviour against a live server.",
 		Assumptions: []string{"crypto/ssh verifies the host key through HostKeyCallback; the OpenSSH client honours its options", "knownhosts.New builds a callback that accepts only keys present in the given file"},
 		Mutants: []Mutant{
+			{ID: "C14-system-file-first", Desc: "the system-wide ssh config is tried before the user's", Rule: "C14/system-files-first-wins",
+				Edits: []Edit{{File: "driver/options/transportssh.go", Old: "\t\tsshF, err = util.ResolveFilePath(\"~/.ssh/config\")", New: "\t\tsshF, err = util.ResolveFilePath(\"/etc/ssh/ssh_config\")"},
+					{File: "driver/options/transportssh.go", Old: "\t\tsshF, err = util.ResolveFilePath(\"/etc/ssh/ssh_config\")\n\t\tif err == nil {\n\t\t\ta.ConfigFile = sshF\n\n\t\t\treturn nil\n\t\t}\n\n\t\treturn fmt.Errorf(", New: "\t\tsshF, err = util.ResolveFilePath(\"~/.ssh/config\")\n\t\tif err == nil {\n\t\t\ta.ConfigFile = sshF\n\n\t\t\treturn nil\n\t\t}\n\n\t\treturn fmt.Errorf("}}},
 			{ID: "C14-shared-ssh-args", Desc: "NewSSHArgs hands out one package-level SSHArgs", Rule: "C14/fresh-args",
 				Edits: []Edit{{File: "transport/transport.go", Old: "\ta := &SSHArgs{\n\t\tStrictKey: defaultSSHStrictKey,\n\t}\n", New: "\ta := &sharedSSHArgs\n"}, {File: "transport/transport.go", Old: "// NewSSHArgs returns an instance of SSH arguments", New: "var sharedSSHArgs = SSHArgs{StrictKey: defaultSSHStrictKey} //nolint:gochecknoglobals\n\n// NewSSHArgs returns an instance of SSH arguments"}}},
 			{ID: "C14-standard-in-channel-auth", Desc: "the crypto/ssh transport announces in-channel authentication", Rule: "C14/in-channel-auth-set",
